@@ -1,6 +1,6 @@
 //! E1 worldsim: one run = generate-and-execute (from a seed) or replay (from an explicit case).
 
-use crate::rng::{mix, Rng};
+use crate::rng::mix;
 use crate::wcase::*;
 use crate::wexec::{Exec, RunStats, Violation};
 use crate::wgen::{profile, Gen};
@@ -9,6 +9,7 @@ pub struct Outcome {
     pub violation: Option<Violation>,
     pub stats: RunStats,
     pub trace_hash: u64,
+    pub fault_sites: Vec<(u32, u32)>,
 }
 
 fn finish(mut ex: Exec, v: Option<Violation>) -> Outcome {
@@ -20,7 +21,19 @@ fn finish(mut ex: Exec, v: Option<Violation>) -> Outcome {
             }));
             Some(v)
         }
-        None => ex.finish().err(),
+        None => match std::panic::catch_unwind(std::panic::AssertUnwindSafe(|| ex.finish())) {
+            Ok(r) => r.err(),
+            Err(e) => Some(Violation {
+                props: vec![if ex.cfg.faults { "C19".to_string() } else { "C08".to_string() }],
+                oracle: "panic-escaped".into(),
+                detail: format!(
+                    "dropping the world / settling the ledger panicked: {} (at {})",
+                    crate::util::panic_message(&e),
+                    crate::util::last_panic_location()
+                ),
+                at_uid: u32::MAX,
+            }),
+        },
     };
     let mut t = ex.stats.trace;
     if let Some(v) = &violation {
@@ -29,6 +42,7 @@ fn finish(mut ex: Exec, v: Option<Violation>) -> Outcome {
     Outcome {
         violation,
         trace_hash: t.0,
+        fault_sites: std::mem::take(&mut ex.fault_sites),
         stats: std::mem::take(&mut ex.stats),
     }
 }
@@ -43,6 +57,7 @@ pub fn generate_and_run(prof_name: &str, seed: u64) -> (WCase, Outcome) {
         seed,
         cfg: cfg.clone(),
         steps: vec![],
+        final_fault: None,
     };
     let mut ex = match Exec::new(&cfg) {
         Ok(ex) => ex,
@@ -53,23 +68,17 @@ pub fn generate_and_run(prof_name: &str, seed: u64) -> (WCase, Outcome) {
                     violation: Some(v),
                     stats: RunStats::default(),
                     trace_hash: 0,
+                    fault_sites: vec![],
                 },
             )
         }
     };
     let frames = g.rng.range(prof.frames.0, prof.frames.1);
-    let mut fault_rng = Rng::new(mix(&[seed, 0xFA17]));
     for _f in 0..frames {
         let nops = g.rng.range(prof.ops.0, prof.ops.1);
         for _ in 0..nops {
             let kind = g.next_kind(&ex);
-            let fault = if prof.faults && fault_rng.chance(prof.fault_pct, 100) {
-                Some(Fault {
-                    k: fault_rng.below(64) as u16,
-                })
-            } else {
-                None
-            };
+            let fault = None;
             let op = Op {
                 uid: g.uid(),
                 kind,
@@ -92,13 +101,7 @@ pub fn generate_and_run(prof_name: &str, seed: u64) -> (WCase, Outcome) {
             let op = Op {
                 uid: g.uid(),
                 kind: OpKind::Maintain,
-                fault: if prof.faults && fault_rng.chance(prof.fault_pct, 100) {
-                    Some(Fault {
-                        k: fault_rng.below(64) as u16,
-                    })
-                } else {
-                    None
-                },
+                fault: None,
             };
             case.steps.push(Step::Op(op.clone()));
             if let Err(v) = ex.apply(&op) {
@@ -112,12 +115,16 @@ pub fn generate_and_run(prof_name: &str, seed: u64) -> (WCase, Outcome) {
 /// Re-executes an explicit case (replay files, minimisation candidates).
 pub fn replay(case: &WCase) -> Outcome {
     let mut ex = match Exec::new(&case.cfg) {
-        Ok(ex) => ex,
+        Ok(mut ex) => {
+            ex.final_fault = case.final_fault;
+            ex
+        }
         Err(v) => {
             return Outcome {
                 violation: Some(v),
                 stats: RunStats::default(),
                 trace_hash: 0,
+                fault_sites: vec![],
             }
         }
     };
